@@ -44,6 +44,11 @@ package main
 //                        the scenario goes on when the child reports that it has replayed its log (file caughtup-<run>)
 //   G                    every client fetches the increment of its stream (resume protocol: lastseen=<last id seen>)
 //   (end of line)        G, then every client fetches its whole stream (lastseen=0.0)
+// LIVE READERS: from its JOIN on every client also keeps a long-poll GET .../messages?lastseen=<last id it saw> open in a
+// goroutine of its own, as the bridge does: when the stream ends (node killed, request superseded or cancelled) it
+// reconnects with the id of the last message it received.  It is paused only while the same session fetches with G (a new
+// GetMessages request of a session supersedes the old one).  At the end the client posts "PING live-final-<k>"; the live
+// reader is finished when it has seen the PONG.  What it received (live_read) is compared with the whole stream by the monitor.
 // Every POST carries a client message id and is repeated with the SAME id until HTTP 200 (bounded
 // back-off; while the node is down the client waits for it to come back).  The end of a stream is
 // recognised by the PONG to a "PING <token>" which the client itself posted last.
@@ -546,6 +551,21 @@ type vsClient struct {
 	FullOK   bool       `json:"full_fetched"`
 	Unsorted int        `json:"ids_not_increasing"`
 	Fetches  int        `json:"fetches"`
+	LiveRead [][]string `json:"live_read"`
+	LiveOn   bool       `json:"live_reader"`
+	LiveDone bool       `json:"live_finished"`
+	LiveConn int        `json:"live_connects"`
+	LiveUns  int        `json:"live_ids_not_increasing"`
+	LiveErrs []string   `json:"live_errors,omitempty"`
+
+	liveMu     sync.Mutex
+	liveWant   bool
+	liveActive bool
+	liveStop   bool
+	liveCancel context.CancelFunc
+	liveSeen   string
+	liveFinal  string
+	liveExited chan struct{}
 
 	sid, auth string
 	cmid      uint64
@@ -558,6 +578,7 @@ type vsCase struct {
 	ctx     context.Context
 	srv     *vsSrv
 	httpc   *http.Client
+	streamc *http.Client // no overall timeout: long-poll streams
 	clients map[int]*vsClient
 	order   []int
 	events  []string
@@ -741,6 +762,190 @@ func (c *vsCase) createClient(k int) {
 		}
 	}
 	cl.Joined = true
+	if os.Getenv("VERIF_SYS_NOLIVE") == "" {
+		cl.LiveOn = true
+		cl.liveWant = true
+		cl.liveExited = make(chan struct{})
+		go c.liveLoop(cl)
+	}
+}
+
+// liveLoop is the long-lived reader of one session (see LIVE READERS above).
+func (c *vsCase) liveLoop(cl *vsClient) {
+	defer close(cl.liveExited)
+	var prev robust.Id
+	for {
+		cl.liveMu.Lock()
+		if cl.liveStop {
+			cl.liveMu.Unlock()
+			return
+		}
+		if !cl.liveWant {
+			cl.liveMu.Unlock()
+			time.Sleep(200 * time.Microsecond)
+			continue
+		}
+		ctx, cancel := context.WithCancel(c.ctx)
+		cl.liveCancel = cancel
+		cl.liveActive = true
+		ls := cl.liveSeen
+		cl.liveMu.Unlock()
+		if ls == "" {
+			ls = "0.0"
+		}
+		finished := c.liveOnce(ctx, cl, ls, &prev)
+		cancel()
+		cl.liveMu.Lock()
+		cl.liveActive = false
+		cl.liveCancel = nil
+		if finished {
+			cl.LiveDone = true
+			cl.liveMu.Unlock()
+			return
+		}
+		cl.liveMu.Unlock()
+		if c.ctx.Err() != nil {
+			return
+		}
+		time.Sleep(200 * time.Microsecond)
+	}
+}
+
+func (c *vsCase) liveNote(cl *vsClient, f string) {
+	cl.liveMu.Lock()
+	if len(cl.LiveErrs) < 8 {
+		cl.LiveErrs = append(cl.LiveErrs, f)
+	}
+	cl.liveMu.Unlock()
+}
+
+// liveOnce is one GetMessages request of the live reader; true = the final PONG was seen.
+func (c *vsCase) liveOnce(ctx context.Context, cl *vsClient, lastseen string, prev *robust.Id) bool {
+	base, err := c.srv.waitUp(ctx)
+	if err != nil {
+		return false
+	}
+	req, _ := http.NewRequestWithContext(ctx, "GET", base+"/robustirc/v1/"+cl.sid+"/messages?lastseen="+lastseen, nil)
+	req.Header.Set("X-Session-Auth", cl.auth)
+	resp, err := c.streamc.Do(req)
+	if err != nil {
+		return false
+	}
+	defer resp.Body.Close()
+	if resp.StatusCode != http.StatusOK {
+		b, _ := io.ReadAll(io.LimitReader(resp.Body, 200))
+		c.liveNote(cl, fmt.Sprintf("status-%d:%s", resp.StatusCode, strings.TrimSpace(string(b))))
+		time.Sleep(2 * time.Millisecond)
+		return false
+	}
+	cl.liveMu.Lock()
+	cl.LiveConn++
+	cl.liveMu.Unlock()
+	dec := json.NewDecoder(resp.Body)
+	for {
+		var m robust.Message
+		if err := dec.Decode(&m); err != nil {
+			return false
+		}
+		if m.Type != robust.IRCToClient {
+			continue
+		}
+		cl.liveMu.Lock()
+		if m.Id.Id < prev.Id || (m.Id.Id == prev.Id && m.Id.Reply <= prev.Reply) {
+			cl.LiveUns++
+		}
+		*prev = m.Id
+		cl.liveSeen = fmt.Sprintf("%d.%d", m.Id.Id, m.Id.Reply)
+		final := cl.liveFinal
+		f := strings.SplitN(m.Data, " ", 4)
+		if len(f) == 4 && f[1] == "PRIVMSG" && f[2] == vsChannel {
+			nick := strings.TrimPrefix(f[0], ":")
+			if i := strings.Index(nick, "!"); i >= 0 {
+				nick = nick[:i]
+			}
+			cl.LiveRead = append(cl.LiveRead, []string{nick, strings.TrimPrefix(f[3], ":")})
+		}
+		cl.liveMu.Unlock()
+		if final != "" && len(f) >= 3 && f[1] == "PONG" && strings.TrimPrefix(f[2], ":") == final {
+			return true
+		}
+	}
+}
+
+// livePause makes the live readers give up their requests (a G fetch of the same session would supersede them anyway).
+func (c *vsCase) livePause(pause bool) {
+	for _, k := range c.order {
+		cl := c.clients[k]
+		if !cl.LiveOn {
+			continue
+		}
+		cl.liveMu.Lock()
+		cl.liveWant = !pause
+		if pause && cl.liveCancel != nil {
+			cl.liveCancel()
+		}
+		cl.liveMu.Unlock()
+	}
+	if !pause {
+		return
+	}
+	for _, k := range c.order {
+		cl := c.clients[k]
+		for cl.LiveOn {
+			cl.liveMu.Lock()
+			a := cl.liveActive
+			cl.liveMu.Unlock()
+			if !a {
+				break
+			}
+			time.Sleep(100 * time.Microsecond)
+		}
+	}
+}
+
+// liveFinish: every client posts a last PING; its live reader must get to the PONG.  Then the readers are stopped.
+func (c *vsCase) liveFinish(wait bool) {
+	var wg sync.WaitGroup
+	for _, k := range c.order {
+		cl := c.clients[k]
+		if !cl.LiveOn {
+			continue
+		}
+		wg.Add(1)
+		go func(cl *vsClient) {
+			defer wg.Done()
+			if wait && cl.Dead == "" {
+				token := fmt.Sprintf("live-final-%d", cl.K)
+				cl.liveMu.Lock()
+				cl.liveFinal = token
+				cl.liveMu.Unlock()
+				cl.mu.Lock()
+				rec := c.post(cl, "PING "+token, vsPostOpt{})
+				cl.mu.Unlock()
+				if rec.Acked {
+					deadline := time.NewTimer(30 * time.Second)
+					select {
+					case <-cl.liveExited:
+					case <-deadline.C:
+						c.liveNote(cl, "the PONG to the final PING did not arrive within 30 s")
+					case <-c.ctx.Done():
+					}
+					deadline.Stop()
+				} else {
+					c.liveNote(cl, "final PING not acknowledged")
+				}
+			}
+			cl.liveMu.Lock()
+			cl.liveStop = true
+			cl.liveWant = false
+			if cl.liveCancel != nil {
+				cl.liveCancel()
+			}
+			cl.liveMu.Unlock()
+			<-cl.liveExited
+		}(cl)
+	}
+	wg.Wait()
 }
 
 // fetch reads the client's stream from lastseen until the PONG carrying token.
@@ -1158,7 +1363,9 @@ func (c *vsCase) step(tok string) bool {
 			return false
 		}
 	case "G":
+		c.livePause(true)
 		c.fetchAll(false)
+		c.livePause(false)
 		c.event("G")
 	default:
 		c.fail("unknown step %q", tok)
@@ -1194,6 +1401,7 @@ func vsRunCase(line, scratch string, n int) (out string) {
 		ctx:     ctx,
 		srv:     &vsSrv{base: base, dir: filepath.Join(base, "raft")},
 		httpc:   &http.Client{Transport: tr, Timeout: 40 * time.Second},
+		streamc: &http.Client{Transport: tr},
 		clients: map[int]*vsClient{},
 	}
 	defer func() {
@@ -1215,7 +1423,9 @@ func vsRunCase(line, scratch string, n int) (out string) {
 			break
 		}
 	}
-	if ctx.Err() == nil && len(c.errs) == 0 {
+	quiet := ctx.Err() == nil && len(c.errs) == 0
+	c.liveFinish(quiet)
+	if quiet {
 		c.fetchAll(true)
 	}
 	res.Snaps = c.snapshotCount()
